@@ -271,6 +271,10 @@ def check_state(impl, ref, backend, st=None):
     names = list(st.mode_names.values()) if isinstance(st.mode_names, dict) else list(st.mode_names)
     if names != [f"q[{i}]" for i in act]:
         bad.append(("mode-names", f"state.mode_names = {names}, active indices {act}"))
+    if st is impl.result.state if impl.result is not None else False:
+        bad += check_substates(impl, ref, backend)
+        if bad:
+            return bad
     if backend != "fock":
         # the whole Gaussian state of the active modes: every mode carries its own data AND its own correlations
         mu_r, V_r = ref.reduced(act)
@@ -299,6 +303,66 @@ def check_state(impl, ref, backend, st=None):
         if abs(x - exp) > tol or abs(p) > tol:
             bad.append(("mode-data", f"mode k={k} (index {i}) has <x>={float(np.real(x)):.4f}, <p>={float(np.real(p)):.4f}; its own data is <x>={exp:.4f}"))
             break
+    return bad
+
+
+def check_substates(impl, ref, backend):
+    """backend.state(modes=S) after any history: one mode at a time, a descending pair, a deleted and an unknown index"""
+    bad = []
+    act = ref.active
+    b = impl.eng.backend
+
+    def one_mode_x(st, k):
+        with warnings.catch_warnings():
+            warnings.simplefilter("ignore")
+            return float(np.real(st.quad_expectation(k, 0)[0]))
+
+    tol = 1e-5 if backend != "fock" else 2e-3
+    for i in act:
+        try:
+            with warnings.catch_warnings():
+                warnings.simplefilter("ignore")
+                st = b.state(modes=[i])
+            names = list(st.mode_names.values()) if isinstance(st.mode_names, dict) else list(st.mode_names)
+            x = one_mode_x(st, 0)
+        except Exception as e:  # noqa: BLE001
+            bad.append(("state(modes)-raises", f"backend.state(modes=[{i}]) raised {type(e).__name__}: {str(e)[:80]} although mode {i} is active ({act})"))
+            return bad
+        if st.num_modes != 1 or names != [f"q[{i}]"]:
+            bad.append(("state(modes)-label", f"backend.state(modes=[{i}]) is labelled {names} ({st.num_modes} modes)"))
+            return bad
+        if abs(x - ref.mu[i]) > tol:
+            bad.append(("state(modes)-data", f"backend.state(modes=[{i}]) has <x> = {x:.4f}, mode {i}'s own data is {ref.mu[i]:.4f} (active modes {act})"))
+            return bad
+    if len(act) >= 2:
+        a, c = act[-1], act[0]
+        try:
+            with warnings.catch_warnings():
+                warnings.simplefilter("ignore")
+                st = b.state(modes=[a, c])
+            names = list(st.mode_names.values()) if isinstance(st.mode_names, dict) else list(st.mode_names)
+            xs = [one_mode_x(st, 0), one_mode_x(st, 1)]
+        except Exception as e:  # noqa: BLE001
+            bad.append(("state(modes)-raises", f"backend.state(modes=[{a}, {c}]) raised {type(e).__name__}: {str(e)[:80]}"))
+            return bad
+        # whatever order is returned (the bosonic simulator documents ascending order), label k must describe position k
+        for k, nm in enumerate(names):
+            idx = int(nm[2:-1]) if nm.startswith("q[") else None
+            if idx not in (a, c) or abs(xs[k] - ref.mu[idx]) > tol:
+                bad.append(("state(modes)-label-vs-data", f"backend.state(modes=[{a}, {c}]) labels position {k} as {nm} but it holds <x> = {xs[k]:.4f} (own data of the two modes: {ref.mu[a]:.4f}, {ref.mu[c]:.4f})"))
+                return bad
+    for d in [i for i, al in enumerate(ref.alive) if not al][:1] + [len(ref.alive)]:
+        try:
+            with warnings.catch_warnings():
+                warnings.simplefilter("ignore")
+                st = b.state(modes=[d])
+            bad.append(("state(modes)-accepts-invalid", f"backend.state(modes=[{d}]) returned a state ({list(st.mode_names.values()) if isinstance(st.mode_names, dict) else st.mode_names}) although mode {d} is {'deleted' if d < len(ref.alive) else 'unknown'} (active modes {act})"))
+            return bad
+        except ERRS:
+            pass
+        except Exception as e:  # noqa: BLE001
+            bad.append(("state(modes)-wrong-exception", f"backend.state(modes=[{d}]) raised {type(e).__name__}: {str(e)[:80]}"))
+            return bad
     return bad
 
 
